@@ -351,6 +351,12 @@ func (c *Conn) Read(p []byte) (int, error) {
 	case d := <-c.in:
 		return copy(p, d), nil
 	case <-c.closed:
+		if atomic.LoadInt32(&c.timeoutEOF) == 1 {
+			atomic.AddInt32(&c.ReadErrsServed, 1)
+
+			return 0, DressError(ErrReadDeadline, 1)
+		}
+
 		return 0, io.EOF
 	case <-c.readShut:
 		return 0, io.EOF
